@@ -264,7 +264,7 @@ class EquationSolver(object):
                     if not abs(prev) < 1e-4:
                         bad = True
                 else:
-                    err = abs(lastval - prev) / lastval
+                    err = abs(lastval - prev) / abs(lastval)
                     if err > self.ParameterInitialSteadyStateErrorToler:
                         bad = True
             if bad:
